@@ -338,7 +338,7 @@ func c10(c *core.Ctx) {
 		}
 		k.Distinct(fmt.Sprintf("keysize|%d|%d", want, n))
 	})
-	c.Family("inverse", c.N(3*420, 3*200000), func(k *core.Case) {
+	c.Family("inverse", c.N(3*2000, 3*200000), func(k *core.Case) {
 		kl := []int{16, 24, 32}[k.Index%3]
 		n := k.Index / 3
 		if n > 300 {
@@ -392,7 +392,7 @@ func c10(c *core.Ctx) {
 			k.Sample(w)
 		}
 	})
-	c.Family("iv-freshness", c.N(12, 600), func(k *core.Case) {
+	c.Family("iv-freshness", c.N(48, 600), func(k *core.Case) {
 		kl := []int{16, 24, 32}[k.Index%3]
 		key := k.R.Bytes(kl)
 		seen := map[string]bool{}
@@ -505,7 +505,7 @@ func c10(c *core.Ctx) {
 			}
 		}
 	})
-	c.Family("history", c.N(30, 3000), func(k *core.Case) {
+	c.Family("history", c.N(300, 3000), func(k *core.Case) {
 		kl := []int{16, 24, 32}[k.Index%3]
 		key := k.R.Bytes(kl)
 		long, _ := newCipher(kl, key)
